@@ -292,6 +292,102 @@ def out_of_domain_episode(r, src="ood"):
     return ep
 
 
+def cap_bit_ops(ep, cap=5):
+    """At most `cap` in-range calls per bit (Trace_Atomic searches the
+    linearizations of the calls on one bit); extra ones are dropped."""
+    cnt = {}
+    for p in ep["prog"]:
+        keep = []
+        for j in p:
+            if j["kind"] in ("setfield",):
+                keep.append(j)
+                continue
+            pos = j["hi"] if j["kind"] == "efset" else j["idx"]
+            if pos < ep["blen"]:
+                cnt[pos] = cnt.get(pos, 0) + 1
+                if cnt[pos] > cap:
+                    continue
+            keep.append(j)
+        p[:] = keep
+    return ep
+
+
+def swap_race_episode(r, src="free-swaprace"):
+    """Every thread swaps (or sets) the same few bits: exactly one swap(true)
+    of a clear bit may see false, whatever the interleaving."""
+    nt = r.randrange(2, 6)
+    blen = r.choice([1, 64, 65, 130])
+    ep = base(r, 64, r.choice([1, 3, 7]), 4, 0, blen, src)
+    ep["binit"] = [[] for _ in range(ep["nbw"])] if r.random() < 0.7 else ep["binit"]
+    bits = [r.randrange(blen) for _ in range(r.choice([1, 1, 2, 3]))]
+    prog = [[] for _ in range(nt)]
+    for b in bits:
+        v = r.choice([1, 1, 1, 0])
+        for t in range(nt):
+            prog[t].append(job("swapbit", b, v))
+    for p in prog:
+        r.shuffle(p)
+    ep["prog"] = prog
+    return cap_bit_ops(ep)
+
+
+def same_word_episode(r, full=False, src="free-sameword"):
+    """2-4 threads, one field each, all in the same word (or straddling into
+    it), the word all zeros / all ones / random; plus distinct bits of one word."""
+    w = r.choice([64, 64, 8, 16, 32])
+    width = pick_width(r, w, full) or 1
+    nt = r.randrange(2, 5)
+    per = max(1, w // width)
+    first = r.choice([0, 0, per - 1, per, r.randrange(0, 2 * per)])
+    flen = first + nt + 1
+    ep = base(r, w, width, flen, r.choice([0, 1]), 64, src)
+    k = r.random()
+    if k < 0.5:
+        ep["finit"] = [[] for _ in range(ep["nfw"])]
+    elif k < 0.7:
+        ep["finit"] = [list(range(w)) for _ in range(ep["nfw"])]
+    ep["binit"] = [[] for _ in range(ep["nbw"])] if r.random() < 0.6 else ep["binit"]
+    same = r.random() < 0.4
+    v0 = value(r, width)
+    prog = []
+    for t in range(nt):
+        p = [job("setfield", first + t, v0 if same else value(r, width))]
+        if r.random() < 0.5:
+            p.append(job(r.choice(["setbit", "clearbit", "swapbit"]), t * 3 + r.randrange(3), r.getrandbits(1)))
+        if r.random() < 0.3:   # write the own field again
+            p.append(job("setfield", first + t, value(r, width)))
+        prog.append(p)
+    ep["prog"] = prog
+    return cap_bit_ops(ep)
+
+
+def free_episodes(seed, count, reps, full=False):
+    """Episodes whose threads run unscheduled (op "free"): real races, judged by
+    what every interleaving guarantees."""
+    r = random.Random(seed)
+    eps = []
+    for k in range(count):
+        x = r.random()
+        if x < 0.25:
+            ep = same_word_episode(r, full=full)
+        elif x < 0.45:
+            ep = swap_race_episode(r)
+        elif x < 0.60:
+            ep = cap_bit_ops(contended_episode(r, full=full, src="free-hot"))
+        elif x < 0.75:
+            ep = cap_bit_ops(writers_episode(r, full=full, big=r.random() < 0.3, src="free-writers"))
+        elif x < 0.85:
+            ep = cap_bit_ops(ef_episode(r, src="free-ef"))
+        elif x < 0.95:
+            ep = efb_episode(r, src="free-efb")
+        else:
+            ep = cap_bit_ops(out_of_domain_episode(r, src="free-ood"))
+        n = reps // 8 if ep.get("mode") == "efb" else reps
+        ep["ops"] = [{"op": "free", "reps": max(2, n)}, {"op": "end"}]
+        eps.append(ep)
+    return eps
+
+
 def random_episodes(seed, count, full=False):
     r = random.Random(seed)
     eps = []
